@@ -10,7 +10,7 @@ import traceback
 import z3
 from . import core, loader, stubs, strings
 from .core import Engine, SymInt, SymBool, to_z3bool, mk_bool, SxError, Infeasible
-from .values import SymBytes, SymByteArray, fresh_bytes, fresh_int, fresh_bool
+from .values import SymBytes, SymByteArray, fresh_bytes, fresh_int, fresh_bool, fresh_byte
 from .containers import SDict, SDeque, SSet
 
 VERIF = os.path.dirname(os.path.dirname(os.path.abspath(__file__)))
@@ -152,6 +152,9 @@ class PathCtx:
     def bool(self, name):
         return fresh_bool(name)
 
+    def byte(self, name):
+        return fresh_byte(name)
+
     def input(self, name, value):
         """register a concrete or derived value as a named input (appears in counterexamples)"""
         self.e.inputs[name] = value
@@ -199,31 +202,61 @@ class Job:
         self.poison = []
         self.path_index = 0
         self.cur_obs = None
+        self.pending = []
 
     def check(self, name, cond, info):
-        e = core.eng()
+        """obligations are collected and decided at the end of the path (one query for their conjunction;
+        individual queries only if that is not unsat).  Deciding at the end of the path is equivalent:
+        the paths that extend the point of the check partition its path condition."""
         self.n_oblig += 1
         if isinstance(cond, SymBool) or z3.is_expr(cond):
-            t = z3.simplify(to_z3bool(cond))
+            t = to_z3bool(cond)
+            if z3.is_true(t):
+                self.n_discharged += 1
+                self.n_concrete += 1
+                return
         else:
-            t = z3.BoolVal(bool(cond))
-        if z3.is_true(t):
-            self.n_discharged += 1
-            self.n_concrete += 1
+            if bool(cond):
+                self.n_discharged += 1
+                self.n_concrete += 1
+                return
+            t = z3.BoolVal(False)
+        self.pending.append((name, t, info))
+
+    def flush(self):
+        pend, self.pending = self.pending, []
+        if not pend:
             return
+        e = core.eng()
+        if len(pend) > 1:
+            r = e._check(z3.Not(z3.And(*[t for _, t, _ in pend])))
+            if r == z3.unsat:
+                self.n_discharged += len(pend)
+                self._sample(pend[0][0], z3.Not(z3.And(*[t for _, t, _ in pend])), r)
+                return
+        for name, t, info in pend:
+            self._decide(name, t, info)
+
+    def _sample(self, name, neg, r):
+        if len(self.samples) >= 2:
+            return
+        try:
+            e = core.eng()
+            s = z3.Solver()
+            s.add(*e.pc())
+            s.add(neg)
+            txt = s.to_smt2()
+            self.samples.append({'harness': self.spec.name, 'params': jsonable(self.params),
+                                 'obligation': name, 'verdict': str(r),
+                                 'smt2_bytes': len(txt), 'smt2_head': txt[:1500]})
+        except Exception:
+            pass
+
+    def _decide(self, name, t, info):
+        e = core.eng()
         neg = z3.Not(t)
         r = e._check(neg)
-        if len(self.samples) < 2 and not z3.is_false(t):
-            try:
-                s = z3.Solver()
-                s.add(*e.pc())
-                s.add(neg)
-                txt = s.to_smt2()
-                self.samples.append({'harness': self.spec.name, 'params': jsonable(self.params),
-                                     'obligation': name, 'verdict': str(r),
-                                     'smt2_bytes': len(txt), 'smt2_head': txt[:1500]})
-            except Exception:
-                pass
+        self._sample(name, neg, r)
         if r == z3.unsat:
             self.n_discharged += 1
             return
@@ -282,6 +315,7 @@ def run_job(args):
 
         def fn():
             stubs.CONFIG.reset()
+            job.pending = []
             c = PathCtx(job)
             job.cur_ctx = c
             out = spec.fn(c, pkg, **params)
@@ -290,9 +324,11 @@ def run_job(args):
         def on_path(pr):
             job.path_index += 1
             if pr.poison:
+                job.pending = []
                 if len(job.poison) < 5:
                     job.poison.append(pr.poison)
                 return
+            job.flush()
             c = job.cur_ctx
             if spec.concrete is not None and c.obs is not None and \
                     (job.path_index % spec.witness_every == 0 or job.path_index <= 3):
